@@ -289,6 +289,12 @@ class SATEncoder:
         # All different
         self._encode_all_different(variables)
 
+        # A successor is a node index: values outside 0..n-1 are not part of any cycle
+        for var in variables:
+            for val, lit in var.bool_vars.items():
+                if val < 0 or val >= n:
+                    self._clauses.append([-lit])
+
         # No self-loops: x[i] != i
         for i, var in enumerate(variables):
             if i in var.bool_vars:
